@@ -587,3 +587,59 @@ def unchecked_crop(rep, prog, rule):
             else:
                 rep.unk(rule, key, c.at, "box = %s: provenance not recognised" % s[:120])
     rep.floor(rule, "crop_unchecked call sites", n, 1)
+
+
+# ---- crate-local boolean predicates ---------------------------------------------------------
+
+def _callee_of(prog, e):
+    if not isinstance(e, tuple) or not e or e[0] not in ("call", "callat"):
+        return None, None
+    res = e[4] if e[0] == "callat" else e[3]
+    args = e[3] if e[0] == "callat" else e[2]
+    g = prog.fns.get(res) if isinstance(res, str) else None
+    if g is None or g.d.get("output") != "bool":
+        return None, None
+    return g, args
+
+
+def predicate_parts(prog, e):
+    """all conditions and returned expressions of a crate-local bool function called by e, with
+    the arguments substituted (what the result of the call depends on)"""
+    g, args = _callee_of(prog, e)
+    if g is None:
+        return []
+    gs = Sym(g)
+    mapping = {("param", i + 1, g.local_name(i + 1)): a for i, a in enumerate(args)}
+    out = []
+    for (bb, j, rv, w) in g.defs().get(0, []):
+        out.append(subst(gs.rvalue(rv, bb, (bb, j)), mapping))
+        for cond, val in gs.facts_at(bb):
+            out.append(subst(cond, mapping))
+    return out
+
+
+def implied_when(prog, e, val):
+    """facts (cond, bool) that hold whenever the crate-local bool call e returns `val`:
+    the intersection, over the return definitions that can produce `val`, of their path facts
+    (+ the returned expression == val)"""
+    g, args = _callee_of(prog, e)
+    if g is None:
+        return None
+    gs = Sym(g)
+    mapping = {("param", i + 1, g.local_name(i + 1)): a for i, a in enumerate(args)}
+    alts = []
+    for (bb, j, rv, w) in g.defs().get(0, []):
+        r = gs.rvalue(rv, bb, (bb, j))
+        if r[0] == "const" and isinstance(r[1], bool):
+            if r[1] != val:
+                continue
+            facts = set()
+        else:
+            facts = {(subst(r, mapping), val)}
+        for cond, v in gs.facts_at(bb):
+            if isinstance(v, bool):
+                facts.add((subst(cond, mapping), v))
+        alts.append(facts)
+    if not alts:
+        return set()
+    return set.intersection(*alts)
